@@ -347,6 +347,23 @@ fn main() {
     }
     // (b) well-formed words
     wellformed_all(&run, &mut c, None);
+    // long well-formed words (DESIGN 5.14): 17 .. 300 terms cycling through every unit and both signs
+    for k in [17usize, 64, 255, 256, 257, 300] {
+        for phase in 0..10usize {
+            for amount in [1i128, 59, 1000] {
+                let terms: Vec<Term> = (0..k).map(|i| term(["", "-", "+"][(i + phase) % 3], amount + (i % 4) as i128, (i + phase) % 10)).collect();
+                let refs: Vec<&Term> = terms.iter().collect();
+                c.states += 1;
+                c.transitions += 1;
+                c.fam("timedelta-long").states += 1;
+                c.nontrivial("timedelta-long", (k * 1000 + phase * 10) as u64 + amount as u64);
+                check_wellformed(&refs, "timedelta-long", &mut c);
+                // and the same string through the totality / wrapper checks
+                let text: String = terms.iter().map(|t| t.text.as_str()).collect();
+                td_total(&text, "timedelta-long", &mut c);
+            }
+        }
+    }
     total.merge(c);
     // (c) date-time totality over short strings, round trips, edits
     let dwords = strings_upto(&DT_ALPHA, dt_len);
